@@ -77,6 +77,19 @@ MUTANTS = [
     ("b70", T + "helpers.jinja", """r\"\"\" {{ content | replace('\"\"\"', '\\\\"\\\\"\\\\"') }} \"\"\"""", 'r""" {{ content }} """', ["C05"]),
     ("b71", PP + "string.py", "        return Value(python_code=repr(utils.remove_string_escapes(value)), raw_value=value)", "        return Value(python_code=f'\"{utils.remove_string_escapes(value)}\"', raw_value=value)", ["C13"]),
     ("b72", P + "parser/openapi.py", '            summary=utils.remove_string_escapes(data.summary) if data.summary else "",', '            summary=data.summary or "",', ["C05"]),
+    # contracts of the seventh batch
+    ("c01", P + "parser/openapi.py", "                    for collection in collections:\n                        collection.parse_errors.append(endpoint)\n                    continue",
+     "                    continue", ["C07"]),
+    ("c02", P + "parser/openapi.py", "                for collection in collections:\n                    collection.endpoints.append(endpoint)",
+     "                if not endpoint.errors:\n                    for collection in collections:\n                        collection.endpoints.append(endpoint)", ["C07"]),
+    ("c03", P + "parser/openapi.py", "                endpoint, schemas, parameters = Endpoint.from_data(\n                    data=operation,",
+     "                endpoint, _schemas, parameters = Endpoint.from_data(\n                    data=operation,", ["C08"]),
+    ("c04", PP + "model_property.py", "        if len({prop.python_name for prop in resulting.values()}) != len(resulting):",
+     "        if len({prop.python_name for prop in properties.values()}) != len(properties):", ["C09"]),
+    ("c05", PP + "model_property.py", "    if first.python_name == second.python_name:\n        return PropertyError(",
+     "    if first.python_name == second.name:\n        return PropertyError(", ["C09"]),
+    ("c06", P + "config.py", "            field_prefix=config_file.field_prefix,", "            field_prefix=config_file.field_prefix.lower(),", ["C16"]),
+    ("c07", P + "config.py", "        if config_file.post_hooks is not None:", "        if config_file.post_hooks:", ["C16"]),
 ]
 
 
